@@ -77,10 +77,13 @@ def list_op(l, method, args, conv=lambda x: x, owner=None, attr=None):
 
 def apply_live(edit, objs):
     E = env.load()
+    def live_val(vs):
+        # clearing an optional input on a live model is done with an empty value (assigning None raises in the library)
+        return E.EmptyExplainableObject() if vs[0] == "none" else val(vs, objs)
     if edit["op"] == "set":
-        setattr(objs[edit["obj"]], edit["attr"], val(edit["value"], objs))
+        setattr(objs[edit["obj"]], edit["attr"], live_val(edit["value"]))
     elif edit["op"] == "group":
-        changes = [[getattr(objs[c["obj"]], c["attr"]), val(c["value"], objs)] for c in edit["changes"]]
+        changes = [[getattr(objs[c["obj"]], c["attr"]), live_val(c["value"])] for c in edit["changes"]]
         E.ModelingUpdate(changes)
     elif edit["op"] == "list":
         owner = objs[edit["obj"]]
@@ -388,3 +391,21 @@ def risky_edit(rnd, spec, objs=None):
     if k == "traffic_up":
         up = rnd.choice(ups); h = O[up]["params"]["hourly_usage_journey_starts"]
         return {"op": "set", "obj": up, "attr": "hourly_usage_journey_starts", "value": ["h", [x * 1e6 + 1 for x in h[1]], h[2], h[3]], "kind": "risky_" + k}
+
+
+def fix_count_edit(rnd, spec, objs):
+    """give a storage or an on-premise server a fixed instance count at or above its current need, change it, or remove it"""
+    E = env.load()
+    O = spec["objects"]
+    cands = [n for n in names_of(spec, "Storage")] + [n for n in names_of(spec, "Server") if O[n]["params"]["server_type"][1] == "on-premise"]
+    cands = [n for n in cands if n in objs and not isinstance(objs[n].nb_of_instances, E.EmptyExplainableObject)]
+    if not cands:
+        return None
+    n = rnd.choice(cands)
+    cur = O[n]["params"].get("fixed_nb_of_instances", ["none"])
+    if cur[0] == "q" and rnd.random() < 0.3:
+        return {"op": "set", "obj": n, "attr": "fixed_nb_of_instances", "value": ["none"], "kind": "fix_count"}
+    import numpy as np
+    raw = objs[n].raw_nb_of_instances
+    mx = float(np.max(np.asarray(raw.value["value"].values._data, dtype=float))) if not isinstance(raw, E.EmptyExplainableObject) else 0.0
+    return {"op": "set", "obj": n, "attr": "fixed_nb_of_instances", "value": ["q", float(np.ceil(mx)) + rnd.choice([0, 1, 3, 7]), "dimensionless"], "kind": "fix_count"}
